@@ -226,7 +226,7 @@ def run(fx, tier):
     want = set(DEFAULTS)
     if not want <= seen_props and not v.violations:
         raise AnalysisBroken('capabilities never read on any path: %s' % sorted(want - seen_props))
-    capability_source(fx, v)
+    capability_source(fx, v, 'C15')
     v.expect_min('R-OWN', 8, 'capability store: writers, provenance, dominance x TUs')
     v.expect_min('R-DOM', 2000, 'capability obligations over perform() paths')
     return v.finish(
@@ -304,7 +304,7 @@ def _result_is(p, what):
     return val
 
 
-def capability_source(fx, v):
+def capability_source(fx, v, prop='C15'):
     from flow import defs_of
     from acks import binding_of, is_deref_of_optional_from
     # (a) what connack_property reads
@@ -321,7 +321,7 @@ def capability_source(fx, v):
             else:
                 ok = contains(e, lambda n: is_call(n, 'connack_property') and callee_cls(n) == 'stream_context')
         v.check(ok, 'R-OWN', '%s::connack_property%s [%s]' % (f.cls, f.inst()[:40], f.tu), 'reads mqtt_ctx::ca_props of the stream context',
-                key='C15:R-OWN:connack_property:%s' % f.cls, where=f.file)
+                key=prop + ':R-OWN:connack_property:%s' % f.cls, where=f.file)
     # (b) writers of ca_props
     n_w = 0
     for f in fx.fns:
@@ -335,7 +335,7 @@ def capability_source(fx, v):
             if isinstance(tgt, dict) and tgt.get('k') == 'mem' and tgt.get('n') == 'ca_props':
                 n_w += 1
                 v.check(f.cls == 'connect_op' and f.n == 'on_connack', 'R-OWN', 'writer of ca_props: %s::%s [%s]' % (f.cls, f.n, f.tu),
-                        'mqtt_ctx::ca_props is assigned only by connect_op::on_connack', key='C15:R-OWN:ca_props-writer:%s::%s' % (f.cls, f.n),
+                        'mqtt_ctx::ca_props is assigned only by connect_op::on_connack', key=prop + ':R-OWN:ca_props-writer:%s::%s' % (f.cls, f.n),
                         where='%s:%s' % (f.path_file(), l))
     # (c) provenance and dominance in on_connack
     n_c = 0
@@ -352,13 +352,13 @@ def capability_source(fx, v):
         inst = 'connect_op::on_connack%s [%s]' % (f.inst()[:40], f.tu)
         if len(dec) != 1 or len(stores) != 1:
             v.fail('R-OWN', inst + ':store', 'expected one decode_connack and one store of ca_props (found %d, %d)' % (len(dec), len(stores)),
-                   key='C15:R-OWN:on_connack:store', where=f.file)
+                   key=prop + ':R-OWN:on_connack:store', where=f.file)
             continue
         sb, si, sx = stores[0]
         src = origin(f, sx['args'][1])
         from_dec = binding_of(src, 2, lambda e: is_deref_of_optional_from(e, dec[0]))
         v.check(bool(from_dec), 'R-OWN', inst + ':provenance', 'the stored capabilities are the properties of the CONNACK just decoded',
-                key='C15:R-OWN:on_connack:provenance', where=f.file)
+                key=prop + ':R-OWN:on_connack:provenance', where=f.file)
         exits = [(b, i, l, callee_name(c)) for b, i, l, c in f.calls()
                  if (callee_name(c) == 'complete' and callee_cls(c) == 'connect_op') or callee_name(c) == 'async_auth']
         if not exits:
@@ -367,7 +367,7 @@ def capability_source(fx, v):
             ok = (b == sb and si < i) or (b != sb and sb in dom.get(b, set()))
             v.check(ok, 'R-OWN', inst + ':stored-before-%s@%s' % (nm, l),
                     'the capabilities are stored before the connect %s' % ('completes' if nm == 'complete' else 'continues with the authenticator (whose completion ends the connect)'),
-                    key='C15:R-OWN:on_connack:stored-before-%s' % nm, where='%s:%s' % (f.path_file(), l))
+                    key=prop + ':R-OWN:on_connack:stored-before-%s' % nm, where='%s:%s' % (f.path_file(), l))
     if n_c == 0:
         raise AnalysisBroken('connect_op::on_connack not found')
 
